@@ -12,9 +12,11 @@ git -C /repo worktree add -q --detach $WT HEAD || exit 9
 cp /verif/known_findings.txt $SV/; mkdir -p $SV/fixtures; cp -r /verif/fixtures/. $SV/fixtures/
 ( cd $WT && git apply --3way $SEED/patch.diff ) > $OUT/apply.log 2>&1 || { echo "$LABEL APPLY-FAILED"; git -C /repo worktree remove --force $WT; exit 1; }
 ( cd $WT && go build ./... ) > $OUT/build.log 2>&1; B=$?
-( cd $WT && go test -vet=off -count=1 ./... ) > $OUT/suite.log 2>&1; S=$?
+S=-
+# RECHECK=1: the change was confirmed before; only re-run the static checks
+[ -n "${RECHECK:-}" ] || { ( cd $WT && go test -vet=off -count=1 ./... ) > $OUT/suite.log 2>&1; S=$?; }
 DC=-; DP=-
-if [ -x $SEED/run.sh ] || [ -f $SEED/run.sh ]; then
+if [ -z "${RECHECK:-}" ] && [ -f $SEED/run.sh ]; then
   ( cd $SEED && bash ./run.sh /repo ) > $OUT/demo_clean.log 2>&1; DC=$?
   ( cd $SEED && bash ./run.sh $WT ) > $OUT/demo_patched.log 2>&1; DP=$?
 fi
